@@ -181,6 +181,11 @@ def run_check(prop, tier, spec, budget=None, max_runs=None, verif_seed=None, qui
         if k is not None and k["what"] not in reported:
             reported.add(k["what"])
             lines.append("KNOWN-FINDING: property=%s %s" % (prop, k["what"]))
+    # every listed open finding of this property is named, also when this run did not meet it again
+    for k in known:
+        if k.get("status") == "open" and k.get("property") == prop and k["what"] not in reported:
+            reported.add(k["what"])
+            lines.append("KNOWN-FINDING: property=%s %s [listed; not met again in this run]" % (prop, k["what"]))
     # new violations: minimise the first of each signature (at most 2)
     done = set()
     for v, res in new_viol:
